@@ -41,13 +41,15 @@ Record caseL (T : Type) := mkL {
   l_bdt : bool;                        (* dtype in _BLAS_DTYPES *)
   l_flags : list (bool * bool);        (* (c_contiguous, f_contiguous) of x1, x2, out *)
   l_ids : nat * nat * nat;             (* identities of x1, x2, out among the buffers 0,1,2 *)
+  l_size : Z;                          (* 0: the buffers are the whole arrays; n > 0: x1.size = n and the
+                                          buffers hold one period of periodic arrays (large sizes) *)
   l_a : T; l_b : T;
   l_bufs : list (list T);              (* initial contents of buffers 0,1,2 *)
   l_res : list (list T)                (* contents of buffers 0,1,2 after the call (implementation) *)
 }.
 Arguments mkL {T}.
 Arguments l_fl {T}. Arguments l_bdt {T}. Arguments l_flags {T}. Arguments l_ids {T}.
-Arguments l_a {T}. Arguments l_b {T}. Arguments l_bufs {T}. Arguments l_res {T}.
+Arguments l_size {T}. Arguments l_a {T}. Arguments l_b {T}. Arguments l_bufs {T}. Arguments l_res {T}.
 
 Definition store_of {T} (bufs : list (list T)) : store T := fun j => nth j bufs [].
 Definition dump {T} (s : store T) : list (list T) := [s 0%nat; s 1%nat; s 2%nat].
@@ -55,7 +57,8 @@ Definition dump {T} (s : store T) : list (list T) := [s 0%nat; s 1%nat; s 2%nat]
 Definition checkL {T} `{Num T} (cl : T -> T -> bool) (cast : T -> T) (k : caseL T) : bool :=
   let s0 := store_of (l_bufs k) in
   let '(i1, i2, io) := l_ids k in
-  match lincomb_impl cast (l_fl k) (l_bdt k) (l_flags k) (l_a k) i1 (l_b k) i2 io s0 with
+  match (if (l_size k =? 0)%Z then lincomb_impl cast (l_fl k) (l_bdt k) (l_flags k) (l_a k) i1 (l_b k) i2 io s0
+         else lincomb_impl_sz cast (l_fl k) (l_bdt k) (l_flags k) (l_size k) (l_a k) i1 (l_b k) i2 io s0) with
   | Ok s1 => all2 (all2 cl) (l_res k) (dump s1)
   | _ => false
   end.
